@@ -105,6 +105,7 @@ def register(reg):
     register_tree_init(reg)
     register_tree_fromdb(reg)
     register_calc_root(reg)
+    register_proof_api(reg)
 
 
 # =====================================================================================================
@@ -683,3 +684,70 @@ def croot_inv(E, fr, i):
 def register_calc_root(reg):
     reg.add("smt_tree", Contract(MOD + ":calc_root", ["key", "value", "branch"], croot_cases, setup=croot_setup,
                                  props=("C14", "C15"), loops={0: LoopSpec(croot_inv)}, callee=False))
+
+
+# SparseMerkleProof: root_hash / branch / value / key and __init__ (C15) ---------------------------------------
+def proof_root_setup(E):
+    s = objs.mk_smproof(E)
+    key, value, branch = s.fields["_key"].t, s.fields["_value"].t, s.fields["_branch"].seq.t
+    r = objs.hash32(E, "ghost_root").t
+    D = 8 * z3.Length(key)
+    p = to_int(key)
+    # the proof is in sync with the (consistent, well-formed) ghost tree r: its value is the leaf content of its key
+    # and its branch holds the siblings on the key's path (instantiated level by level in the loop of calc_root)
+    E.assume(mk_bool(value == unk(pn(r, p, D, D))))
+    E.assume(mk_bool(specfn.keccak(unk(pn(r, p, D, D))) == pn(r, p, D, D)))
+    E.ghost["croot"] = (r, p, D, branch)
+    return {"self": s}
+
+
+def proof_root_cases(E, ctx):
+    r, p, D, b = E.ghost["croot"]
+    return [Case("root-of-the-tree-it-is-in-sync-with", returns=lambda: SSeq(r, "bytes"))]
+
+
+def proof_getter_cases(field, as_tuple=False):
+    def cases(E, ctx):
+        v = ctx.old_field(ctx.self, field)
+        if as_tuple:
+            t = ctx.old_items(v)[1].t if hasattr(ctx, "old_items") else v.seq.t
+            return [Case("value", returns=lambda: SSeq(t, "tuple", "bytes"))]
+        return [Case("value", returns=lambda: v)]
+    return cases
+
+
+def pinit_setup(E):
+    o = Obj(objs.cls_of(E, "trie.smt", "SparseMerkleProof"), {})
+    key = E.fresh_seq("key", "bytes")
+    value = E.fresh_seq("value", "bytes")
+    branch = E.fresh_seq("branch", "tuple", "bytes")
+    E.assume(mk_bool(z3.Length(branch.t) == 8 * z3.Length(key.t)))
+    return {"self": o, "key": key, "value": value, "branch": branch}
+
+
+def pinit_cases(E, ctx):
+    def post():
+        f = ctx.self.fields
+        try:
+            return [("key", ops.py_eq(f["_key"], ctx.key)), ("value", ops.py_eq(f["_value"], ctx.value)),
+                    ("key-size", mk_bool(as_int_term(f["_key_size"]) == z3.Length(ctx.key.t))),
+                    ("branch-copied", mk_bool(f["_branch"].seq.t == ctx.branch.t) if f["_branch"].seq is not None else
+                     ops.py_eq(tuple(f["_branch"].items), ctx.branch)),
+                    ("branch-size", mk_bool(as_int_term(f["_branch_size"]) == z3.Length(ctx.branch.t)))]
+        except (KeyError, AttributeError, Unsupported) as e:
+            return [("object-initialised (%r)" % (e,), False)]
+    return [Case("initialised", returns=lambda: None, post=post, modifies=[ctx.self])]
+
+
+def register_proof_api(reg):
+    g = "smt_proof"
+    P = MOD + ":SparseMerkleProof."
+    reg.add(g, Contract(P + "root_hash", ["self"], proof_root_cases, setup=proof_root_setup, props=("C15",), callee=False))
+    reg.add(g, Contract(P + "key", ["self"], proof_getter_cases("_key"), setup=lambda E: {"self": objs.mk_smproof(E)},
+                        props=("C15",)))
+    reg.add(g, Contract(P + "value", ["self"], proof_getter_cases("_value"), setup=lambda E: {"self": objs.mk_smproof(E)},
+                        props=("C15",)))
+    reg.add(g, Contract(P + "branch", ["self"], proof_getter_cases("_branch", True),
+                        setup=lambda E: {"self": objs.mk_smproof(E)}, props=("C15",)))
+    reg.add(g, Contract(P + "__init__", ["self", "key", "value", "branch"], pinit_cases, setup=pinit_setup,
+                        props=("C15",), callee=False))
